@@ -105,6 +105,26 @@ func vfC24Seq(rec *evid.Rec, s int) {
 		kind := []string{"UpdateExportOptions", "UpdateExportOptions", "UpdateTuningOptions", "UpdatePolicyOptions", "UpdateExportOptions+SquashChange", "UpdatePolicyOptions+SquashChange"}[rng.Intn(6)]
 		before := srv.nfs.GetExportOptions()
 		var want map[string]any // expected tuning view after the call (nil = unchanged)
+		fieldCls := "-"
+		cls := func(o ExportOptions) string {
+			sign := func(v int) string {
+				switch {
+				case v < 0:
+					return "neg"
+				case v == 0:
+					return "zero"
+				}
+				return "pos"
+			}
+			to := "nil"
+			if o.Timeouts != nil {
+				to = "partial"
+				if o.Timeouts.WriteTimeout > 0 && o.Timeouts.ReadTimeout > 0 {
+					to = "full"
+				}
+			}
+			return fmt.Sprintf("ts=%s workers=%s attrsize=%s timeouts=%s", sign(o.TransferSize), sign(o.MaxWorkers), sign(o.AttrCacheSize), to)
+		}
 		var cerr error
 		rejected := false
 		desc := kind
@@ -117,6 +137,7 @@ func vfC24Seq(rec *evid.Rec, s int) {
 			switch kind {
 			case "UpdateExportOptions", "UpdateExportOptions+SquashChange":
 				o := vfC24RandOpts(rng, before)
+				fieldCls = cls(o)
 				if kind == "UpdateExportOptions+SquashChange" {
 					o.Squash = "all"
 					rejected = true
@@ -135,6 +156,7 @@ func vfC24Seq(rec *evid.Rec, s int) {
 				}
 			case "UpdateTuningOptions":
 				o := vfC24RandOpts(rng, before)
+				fieldCls = cls(o)
 				desc = fmt.Sprintf("%s %v", kind, vfTuningView(o))
 				ops = append(ops, desc)
 				evid.Journal(ops)
@@ -235,7 +257,7 @@ func vfC24Seq(rec *evid.Rec, s int) {
 		} else if after.Timeouts.DefaultTimeout <= 0 || after.Timeouts.ReadTimeout <= 0 || after.Timeouts.WriteTimeout <= 0 || after.Timeouts.LookupTimeout <= 0 {
 			fail("C24/non-positive-timeout-reported", fmt.Sprintf("%+v after %s", *after.Timeouts, desc))
 		}
-		rec.Distinct(fmt.Sprintf("%s|rejected=%v|probe=%s", kind, rejected, probe))
+		rec.Distinct(fmt.Sprintf("%s|rejected=%v|probe=%s|%s", kind, rejected, probe, fieldCls))
 		if probe == "panic" {
 			return
 		}
